@@ -509,6 +509,7 @@ func (fv *FV) loopHead(li *LoopInfo, in *State) *State {
 	}
 	li.preSt = in.clone()
 	h := in.clone()
+	h.last = nil // ghost call records do not survive a loop head (the body may call the function again)
 	// havoc cells assigned in the loop
 	cells, keys := fv.loopWrites(li)
 	for _, a := range cells {
@@ -705,7 +706,9 @@ func (fv *FV) loopWrites(li *LoopInfo) ([]*ssa.Alloc, map[string]bool) {
 	for a := range cellSet {
 		cells = append(cells, a)
 	}
-	sort.Slice(cells, func(i, j int) bool { return cells[i].Pos() < cells[j].Pos() || (cells[i].Pos() == cells[j].Pos() && cells[i].Name() < cells[j].Name()) })
+	sort.Slice(cells, func(i, j int) bool {
+		return cells[i].Pos() < cells[j].Pos() || (cells[i].Pos() == cells[j].Pos() && cells[i].Name() < cells[j].Name())
+	})
 	return cells, keys
 }
 
@@ -869,4 +872,3 @@ func (fv *FV) frameCheckCallee(st *State, keys map[string]bool, what string) {
 		fv.obligeNoAssume(st, "frame", fmt.Sprintf("%s: %s may write %s", fr.what, what, strings.Join(miss, ",")), "false", pos, nil)
 	}
 }
-
